@@ -29,6 +29,7 @@ class Rule:
         self.caret = caret        # 0-based item index before which ^ is written
         self.opt = opt or []      # list of (start, end) 0-based inclusive optional ranges
         self.opt_body = False     # write the optional brackets in the rule body (lhs/rhs part) instead of the context
+        self.opt_lhs = False      # write a single-item optional group on a substituted item as `cls?` on the left-hand side
         self.line = line
         self.ifs = []             # IR of the conditions (feature tests) the rule is under: conjunction
         self.if_open = None       # text to write before the rule: "if (c)", "elseif (c)", "else"
@@ -153,6 +154,7 @@ class Prog:
 
 def rule_text(r):
     lhs, rhs, ctx = [], [], []
+    has_gt = any(it.mod and (it.out is not None or it.cls is None) for it in r.items)
     for i, it in enumerate(r.items):
         pre = ""
         for (s, e) in r.opt:
@@ -163,8 +165,15 @@ def rule_text(r):
             if e == i:
                 post += "]?"
         caret = "^ " if r.caret == i else ""
+        lhs_q = ""
+        if (r.opt_lhs and it.mod and it.cls is not None and r.opt.count((i, i)) == 1
+                and sum(1 for (s, e) in r.opt if s <= i <= e) == 1 and not r.opt_body):   # (inside a context group: error 1127)
+            # the group holds just this item: `cls?` on the left-hand side says the same as `_?` in the context, but the
+            # compiler meets it in another place (ranges of the left-hand side are converted to context positions later)
+            lhs_q = "?"
+            pre, post = "", ""
         if it.mod:
-            lhs.append(it.cls if it.cls is not None else "_")
+            lhs.append((it.cls if it.cls is not None else "_") + lhs_q)
             if it.out is None:
                 o = it.cls
             elif it.out[0] == "cls":
@@ -183,6 +192,8 @@ def rule_text(r):
             if r.opt_body:
                 o = pre + o + post
                 pre = post = ""
+            if lhs_q and not has_gt:
+                o += "?"          # no left-hand side is written: the mark goes on the item itself
             rhs.append(o)
             c = "_"
         else:
@@ -751,7 +762,15 @@ def gen_opt_program(rng, refs=False, exprs=False):
             body_mode = rng.random() < 0.3     # optional groups written in the body of a rule without '>'
             npre = rng.choice([0, 1, 1, 2]) if body_mode else 0
             counter[0] = npre
-            tree = mk(0)
+            lhs_first = (not body_mode) and rng.random() < 0.25
+            if lhs_first:
+                # two or three optional single items at the start (written `cls?` on the left-hand side), groups after them:
+                # the compiler meets the context groups first and the left-hand-side ones afterwards
+                k = rng.choice([2, 2, 3])
+                counter[0] = k
+                tree = [[j] for j in range(k)] + mk(1)
+            else:
+                tree = mk(0)
             if counter[0] == npre:
                 tree = [npre]
                 counter[0] = npre + 1
@@ -782,12 +801,17 @@ def gen_opt_program(rng, refs=False, exprs=False):
                 items = []
                 for i in range(nitems):
                     items.append(Item(cls=rng.choice(names), mod=(npre <= i < nbody_end), out=None))
+            if lhs_first:
+                for j in range(k):
+                    if not items[j].mod:
+                        items[j] = Item(cls=items[j].cls, mod=True, out=None)
             if not any(it.mod for it in items):
                 k = rng.choice(top) if top else 0
                 items[k].mod = True
             r = Rule(items, opt=ranges)
             r.tree = tree
             r.opt_body = body_mode
+            r.opt_lhs = (not body_mode) and (lhs_first or rng.random() < 0.5)
             if rng.random() < 0.2 and not body_mode:
                 r.caret = rng.randint(1, nitems)
             if refs and rng.random() < 0.6 and not body_mode:
